@@ -3,6 +3,7 @@ Theorem (Properties/C03.v): exactness of the elimination scheme on top of C01 an
 Correspondence: CTLS.modelcheck on live objects vs the extracted model."""
 from common import *
 from mccheck import *
+import props_c03_streams as X3
 LEVEL = 'proof'
 
 KFS = [
@@ -96,7 +97,18 @@ def run(R):
               '(labels(s) add/discard, replace_labelling_function with set/frozenset/list/shared containers, add_edge, a new state with its edges and '
               'labels) - with a pool of formula OBJECTS (composed from shared sub-objects) reused across the calls (now and then also passed to '
               'CTL/LTL.modelcheck); every answer must equal the proved model on the presentation read back at the time of the call, every formula object '
-              'must keep its tree, K must be left alone, returned sets are cleared / polluted by the caller after being recorded STACKED NEGATIONS: random formulas with 2-4 negations stacked on random subformulas (under quantifiers, between temporal operators, over derived operators and constants), object and text channel. JOINED ATOM NAMES: atom names of which one is the concatenation / blank- or comma-join / repetition / case variant of others ({p, q} and {pq} are different label sets), most structures with a state of each kind')
+              'must keep its tree, K must be left alone, returned sets are cleared / polluted by the caller after being recorded STACKED NEGATIONS: random formulas with 2-4 negations stacked on random subformulas (under quantifiers, between temporal operators, over derived operators and constants), object and text channel. JOINED ATOM NAMES: atom names of which one is the concatenation / blank- or comma-join / repetition / case variant of others ({p, q} and {pq} are different label sets), most structures with a state of each kind. '
+              'BUILT STRUCTURES (props_c03_streams.run_built): the Kripke object is built by recorded public-API steps on a total core - new states '
+              'enter through add_edge / add_node and are NEVER labelled by the caller (or labelled afterwards through labels(s).update); in a quarter '
+              'of the cases the caller also deletes the entries of label-less states from the labelling dict (its own, installed by '
+              'replace_labelling_function, or the one returned by labelling_function()) - nested-quantifier formulas, model on the presentation read '
+              'back. OBJECT STATES: a sample of all the above with states that are plain instances hashed by IDENTITY, instances holding a lock '
+              '(cannot be copied / pickled), or a mixture with ints: every element of the answer must be one of K\'s own state objects. '
+              'LONG DETERMINISTIC STRUCTURES (run_long): rings, chains into a loop and merging chains with 1100-3000 states and random labellings x '
+              'random CTL formulas with 1-3 temporal operators (answered by the CTL back end: EG/EU/AF/AU/AR/ER...) and a few non-CTL bodies; the exact '
+              'answer is computed by an iterative evaluation along the unique path of each state (A = E there). '
+              'STALE FALLBACK NAMES: structures labelled with the fresh name of a quantified subformula (computed innermost-first, nested quantifiers '
+              'included) and with \'[<name>(k)]\' for a random set of indexes k in 0..11')
     known_finding_probe(R)
     cs = cases(R)
     tags = {}
@@ -138,7 +150,27 @@ def run(R):
     run_text(R, 'CTLS', [c for c in rng.sample(light, 4000 if R.thorough else 400) + extra[::8] + neg[::3] if all(len(g) > 2 or g[0] not in NARY for g in subformulas(c[1]))])
     # one structure queried, edited by its owner and queried again; formula objects reused
     run_live(R, 'CTLS', 3000 if R.thorough else 250)
+    # ---- second audit ----
+    import time as _t
+    t_audit2 = _t.time()
+    # structures grown through the public API whose new states the caller never labels (and label entries the owner of the dict dropped)
+    X3.run_built(R, X3.grown_cases(rng, 6000 if R.thorough else 600), '_grown_unlabelled')
+    # states that are objects: identity-hashed instances, instances that cannot be copied; the answer must be made of K's own states
+    X3.run_built(R, X3.object_state_cases(rng, rng.sample(light, 3000 if R.thorough else 300) + extra[::5] + stale[::8]), '_object_states')
+    # labels spelled like the fresh names AND like members of their fallback family '[name(k)]', k in a random subset of 0..11
+    stale2 = X3.stale_index_cases(rng, 4000 if R.thorough else 400, lambda: rand_ctls_state(rng, rng.randint(2, 3)))
+    run_mc(R, 'CTLS', stale2, label='_stale_fallback_family', alias_every=4)
+    run_mc(R, 'CTLS', stale2[::4], label='_stale_fallback_family_renamed', alias_every=0, varied=True)
+    # long deterministic structures x random CTL formulas (the CTL back end of the CTL* checker) and a few non-CTL bodies
+    t_long = _t.time()
+    X3.run_long(R, 8 if R.thorough else 3, 80 if R.thorough else 30, 6 if R.thorough else 2)
+    R.cov['second_audit_streams_wall_s'] = {'built+stale': round(t_long - t_audit2, 1), 'long': round(_t.time() - t_long, 1)}
 
 
 def replay(R, data):
+    st = data['data'].get('stream')
+    if st == 'built structures':
+        return X3.replay_built(R, data['data'])
+    if st == 'long deterministic structures':
+        return X3.replay_long(R, data['data'])
     replay_mc(R, data)
